@@ -79,7 +79,7 @@ func c16EC(maxLZ int) {
 }
 
 // Harness_C16_ECRoundTrip: P-256, P-384, P-521, secp256k1 keys with up to one leading zero byte per coordinate.
-func Harness_C16_ECRoundTrip() { c16EC(1) }
+func Harness_C16_ECRoundTrip() { c16EC(2) }
 
 // HarnessT_C16_ECRoundTripWide: up to three leading zero bytes.
 func HarnessT_C16_ECRoundTripWide() { c16EC(3) }
